@@ -67,7 +67,7 @@ def expand(arg):
                     "history", "after %s: %s" %
                     (describe(sysm, nh), "; ".join(msgs[:3])),
                     {"init": nh[0], "ops": list(nh[1]),
-                     "desc": describe(sysm, nh)},
+                     "desc": describe(sysm, nh), "factory": factory},
                     sysm.classify(nh, msgs)
                     if hasattr(sysm, "classify") else {})
                 # do not explore beyond a violating state
